@@ -510,3 +510,259 @@ Proof.
   destruct (rxs_of (all_values n_show sets)); [|discriminate].
   injection Hc as <-. cbn [Cli.bc_mapping]. eapply accepted_mapping_guard; eauto.
 Qed.
+
+(* ---------------------------------------------------------------- a rejected value anywhere *)
+
+Definition dashdash : str := [45; 45].
+
+Lemma pres_add_assoc l1 p1 l2 p2 r :
+  pres_add l1 p1 (pres_add l2 p2 r) = pres_add (l1 ++ l2) (p1 ++ p2) r.
+Proof. destruct r as [s q| |]; cbn [pres_add]; [rewrite !app_assoc|..]; reflexivity. Qed.
+
+Lemma pres_add_inv l q r s p : pres_add l q r = PArgs s p ->
+  exists s' p', r = PArgs s' p' /\ s = l ++ s' /\ p = q ++ p'.
+Proof.
+  destruct r as [s0 q0| |]; cbn [pres_add]; try discriminate.
+  intros H. injection H as <- <-. exists s0, q0. repeat split.
+Qed.
+
+(* a step that succeeds at the end of the argument list does not depend on what is appended *)
+Lemma long_arg_none defs body l u : long_arg defs body None = ASets l u ->
+  u = false /\ forall y, long_arg defs body (Some y) = ASets l false.
+Proof.
+  unfold long_arg. destruct body as [|c t]; [discriminate|].
+  destruct ((c =? 45) || (c =? 61)); [discriminate|].
+  destruct (split_first 61 (c :: t)) as [name eqval].
+  destruct (find_long defs name) as [d|]; [|discriminate].
+  assert (Hs : forall v, set_flag d v = ASets l u -> u = false /\ set_flag d v = ASets l false).
+  { intros v. unfold set_flag. destruct (parse_value (f_kind d) v); try discriminate.
+    intros H. injection H as <- <-. split; reflexivity. }
+  destruct eqval as [v|].
+  - intros H. destruct (Hs v H) as [-> E]. split; [reflexivity|]. intros y. exact E.
+  - destruct (f_kind d); try discriminate.
+    intros H. destruct (Hs k_true H) as [-> E]. split; [reflexivity|]. intros y. exact E.
+Qed.
+
+Lemma short_args_none defs : forall sh l u, short_args defs sh None = ASets l u ->
+  u = false /\ forall y, short_args defs sh (Some y) = ASets l false.
+Proof.
+  induction sh as [|c rest IH]; intros l u H; cbn [short_args] in H |- *.
+  - injection H as <- <-. split; reflexivity.
+  - destruct (find_short defs c) as [d|]; [|discriminate].
+    assert (Hlast : forall v used, match set_flag d v with ASets l0 _ => ASets l0 used | r => r end = ASets l u ->
+                                   u = used).
+    { intros v used. destruct (set_flag d v); try discriminate. intros E. injection E as _ <-. reflexivity. }
+    set (gen := fun next : option str =>
+                  match f_kind d with
+                  | KBool =>
+                    match set_flag d k_true with
+                    | ASets l0 _ => match short_args defs rest next with ASets l' u0 => ASets (l0 ++ l') u0 | r => r end
+                    | r => r
+                    end
+                  | _ =>
+                    match rest with
+                    | _ :: _ => match set_flag d rest with ASets l0 _ => ASets l0 false | r => r end
+                    | [] => match next with
+                            | Some v => match set_flag d v with ASets l0 _ => ASets l0 true | r => r end
+                            | None => AErr (PNeedsArg [c])
+                            end
+                    end
+                  end).
+    assert (Hgen : gen None = ASets l u -> u = false /\ forall y, gen (Some y) = ASets l false).
+    { unfold gen. destruct (f_kind d) eqn:Ek;
+        try (destruct rest as [|r0 rt]; [discriminate|];
+             intros E; pose proof (Hlast _ _ E) as ->; split; [reflexivity|intros y; exact E]).
+      destruct (set_flag d k_true) as [l0 u0| | | |]; try discriminate.
+      destruct (short_args defs rest None) as [l' u1| | | |] eqn:Er; try discriminate.
+      intros E. injection E as <- <-. destruct (IH _ _ eq_refl) as [-> Hy].
+      split; [reflexivity|]. intros y. rewrite Hy. reflexivity. }
+    change (match rest with
+            | e :: (_ :: _) as v => if e =? 61 then match set_flag d v with ASets l0 _ => ASets l0 false | r => r end else gen None
+            | _ => gen None
+            end = ASets l u) in H.
+    destruct rest as [|r0 [|r1 rt]]; try exact (Hgen H).
+    destruct (r0 =? 61); [|exact (Hgen H)].
+    pose proof (Hlast _ _ H) as ->. split; [reflexivity|]. intros y. exact H.
+Qed.
+
+Lemma arg_step_none defs s : forall l u, arg_step defs s None = ASets l u ->
+  u = false /\ forall y, arg_step defs s (Some y) = ASets l false.
+Proof.
+  unfold arg_step. intros l u H.
+  destruct s as [|a [|b t]]; try discriminate.
+  destruct (a =? 45); [|discriminate].
+  destruct (b =? 45); [apply long_arg_none|apply short_args_none]; exact H.
+Qed.
+
+Lemma arg_step_pos defs s y : arg_step defs s None = APos -> arg_step defs s (Some y) = APos.
+Proof.
+  unfold arg_step. destruct s as [|a [|b t]]; try reflexivity.
+  destruct (a =? 45); [|reflexivity].
+  destruct (b =? 45).
+  - unfold long_arg. destruct t as [|c t']; [discriminate|].
+    destruct ((c =? 45) || (c =? 61)); [discriminate|].
+    destruct (split_first 61 (c :: t')) as [name eqval].
+    destruct (find_long defs name) as [d|]; [|discriminate].
+    assert (Hs : forall v, set_flag d v <> APos) by (intros v; unfold set_flag; destruct (parse_value (f_kind d) v); discriminate).
+    destruct eqval as [v|]; [intros E; exfalso; exact (Hs _ E)|].
+    destruct (f_kind d); try discriminate. intros E; exfalso; exact (Hs _ E).
+  - intros E. exfalso. revert E. generalize (b :: t). intros sh.
+    assert (G : forall sh next, short_args defs sh next <> APos).
+    { induction sh0 as [|c rest IH]; intros next; cbn [short_args]; [discriminate|].
+      destruct (find_short defs c) as [d|]; [|discriminate].
+      assert (Hs : forall v used, match set_flag d v with ASets l0 _ => ASets l0 used | r => r end <> APos).
+      { intros v used. unfold set_flag. destruct (parse_value (f_kind d) v); discriminate. }
+      assert (Hg : match f_kind d with
+                   | KBool => match set_flag d k_true with
+                              | ASets l0 _ => match short_args defs rest next with ASets l' u0 => ASets (l0 ++ l') u0 | r => r end
+                              | r => r end
+                   | _ => match rest with
+                          | _ :: _ => match set_flag d rest with ASets l0 _ => ASets l0 false | r => r end
+                          | [] => match next with
+                                  | Some v => match set_flag d v with ASets l0 _ => ASets l0 true | r => r end
+                                  | None => AErr (PNeedsArg [c]) end end
+                   end <> APos).
+      { destruct (f_kind d); try (destruct rest; [destruct next; [apply Hs|discriminate]|apply Hs]).
+        unfold set_flag. destruct (parse_value (f_kind d) k_true); try discriminate.
+        pose proof (IH next) as N. destruct (short_args defs rest next); try discriminate. congruence. }
+      destruct rest as [|r0 [|r1 rt]]; try exact Hg.
+      destruct (r0 =? 61); [apply Hs|exact Hg]. }
+    apply G.
+Qed.
+
+(* an accepted argument list without the terminator "--" is read the same way whatever follows it *)
+Lemma parse_args_prefix defs tail : forall n pre, (length pre <= n)%nat -> forall s p,
+  parse_args defs pre = PArgs s p -> ~ In dashdash pre ->
+  parse_args defs (pre ++ tail) = pres_add s p (parse_args defs tail).
+Proof.
+  induction n as [|n IH]; intros pre Hlen s p H Hdd.
+  - destruct pre; [|cbn in Hlen; lia]. cbn in H. injection H as <- <-. cbn [app].
+    destruct (parse_args defs tail); reflexivity.
+  - destruct pre as [|x pre'].
+    { cbn in H. injection H as <- <-. cbn [app]. destruct (parse_args defs tail); reflexivity. }
+    cbn [length] in Hlen. cbn [parse_args] in H. rewrite <- app_comm_cons. cbn [parse_args].
+    assert (Hdd' : ~ In dashdash pre') by (intros F; apply Hdd; right; exact F).
+    destruct pre' as [|y pre''].
+    + (* x is the last element of the accepted prefix *)
+      cbn [hd_error app] in *.
+      destruct (arg_step defs x None) as [l u| | | |] eqn:Es; try discriminate.
+      * destruct (arg_step_none _ _ _ _ Es) as [-> Hy].
+        cbn [parse_args pres_add] in H. injection H as <- <-.
+        destruct tail as [|t0 tail']; cbn [hd_error].
+        -- rewrite Es. cbn [parse_args pres_add]. rewrite !app_nil_r. reflexivity.
+        -- rewrite Hy. rewrite !app_nil_r. reflexivity.
+      * cbn [parse_args pres_add] in H. injection H as <- <-.
+        destruct tail as [|t0 tail']; cbn [hd_error].
+        -- rewrite Es. reflexivity.
+        -- rewrite (arg_step_pos _ _ t0 Es). reflexivity.
+      * (* "--" itself *)
+        exfalso. apply Hdd. left. unfold arg_step in Es.
+        destruct x as [|a [|b t]]; try discriminate.
+        destruct (a =? 45) eqn:Ea; [|discriminate]. destruct (b =? 45) eqn:Eb.
+        -- unfold long_arg in Es. destruct t as [|c t'].
+           ++ apply Z.eqb_eq in Ea, Eb. subst. reflexivity.
+           ++ destruct ((c =? 45) || (c =? 61)); [discriminate|].
+              destruct (split_first 61 (c :: t')) as [name eqval].
+              destruct (find_long defs name) as [d|]; [|discriminate].
+              assert (Hs : forall v, set_flag d v <> ADashDash) by (intros v; unfold set_flag; destruct (parse_value (f_kind d) v); discriminate).
+              destruct eqval as [v|]; [exfalso; exact (Hs _ Es)|].
+              destruct (f_kind d); try discriminate. exfalso; exact (Hs _ Es).
+        -- exfalso. revert Es. generalize (b :: t). intros sh.
+           assert (G : forall sh next, short_args defs sh next <> ADashDash).
+           { induction sh0 as [|c rest IHs]; intros next; cbn [short_args]; [discriminate|].
+             destruct (find_short defs c) as [d|]; [|discriminate].
+             assert (Hs : forall v used, match set_flag d v with ASets l0 _ => ASets l0 used | r => r end <> ADashDash).
+             { intros v used. unfold set_flag. destruct (parse_value (f_kind d) v); discriminate. }
+             assert (Hg : match f_kind d with
+                          | KBool => match set_flag d k_true with
+                                     | ASets l0 _ => match short_args defs rest next with ASets l' u0 => ASets (l0 ++ l') u0 | r => r end
+                                     | r => r end
+                          | _ => match rest with
+                                 | _ :: _ => match set_flag d rest with ASets l0 _ => ASets l0 false | r => r end
+                                 | [] => match next with
+                                         | Some v => match set_flag d v with ASets l0 _ => ASets l0 true | r => r end
+                                         | None => AErr (PNeedsArg [c]) end end
+                          end <> ADashDash).
+             { destruct (f_kind d); try (destruct rest; [destruct next; [apply Hs|discriminate]|apply Hs]).
+               unfold set_flag. destruct (parse_value (f_kind d) k_true); try discriminate.
+               pose proof (IHs next) as N. destruct (short_args defs rest next); try discriminate. congruence. }
+             destruct rest as [|r0 [|r1 rt]]; try exact Hg.
+             destruct (r0 =? 61); [apply Hs|exact Hg]. }
+           apply G.
+    + (* the step sees the same next element *)
+      cbn [hd_error] in H. rewrite <- app_comm_cons. cbn [hd_error].
+      destruct (arg_step defs x (Some y)) as [l u| | | |] eqn:Es; try discriminate.
+      * destruct u.
+        -- apply pres_add_inv in H. destruct H as (s' & p' & Hr & -> & ->).
+           rewrite (IH pre'' ltac:(cbn [length] in Hlen; lia) s' p' Hr ltac:(intros F; apply Hdd'; right; exact F)).
+           rewrite pres_add_assoc. reflexivity.
+        -- apply pres_add_inv in H. destruct H as (s' & p' & Hr & -> & ->).
+           rewrite (app_comm_cons pre'' tail y).
+           rewrite (IH (y :: pre'') ltac:(cbn [length] in *; lia) s' p' Hr Hdd').
+           rewrite pres_add_assoc. reflexivity.
+      * apply pres_add_inv in H. destruct H as (s' & p' & Hr & -> & ->).
+        rewrite (app_comm_cons pre'' tail y).
+        rewrite (IH (y :: pre'') ltac:(cbn [length] in *; lia) s' p' Hr Hdd').
+        rewrite pres_add_assoc. reflexivity.
+      * exfalso. apply Hdd. left.
+        (* only "--" itself gives ADashDash *)
+        unfold arg_step in Es.
+        destruct x as [|a [|b t]]; try discriminate.
+        destruct (a =? 45) eqn:Ea; [|discriminate]. destruct (b =? 45) eqn:Eb.
+        -- unfold long_arg in Es. destruct t as [|c t'].
+           ++ apply Z.eqb_eq in Ea, Eb. subst. reflexivity.
+           ++ destruct ((c =? 45) || (c =? 61)); [discriminate|].
+              destruct (split_first 61 (c :: t')) as [name eqval].
+              destruct (find_long defs name) as [d|]; [|discriminate].
+              assert (Hs : forall v, set_flag d v <> ADashDash) by (intros v; unfold set_flag; destruct (parse_value (f_kind d) v); discriminate).
+              assert (Hs' : forall v, match set_flag d v with ASets l0 _ => ASets l0 true | r => r end <> ADashDash)
+                by (intros v; unfold set_flag; destruct (parse_value (f_kind d) v); discriminate).
+              destruct eqval as [v|]; [exfalso; exact (Hs _ Es)|].
+              destruct (f_kind d); try (exfalso; exact (Hs' _ Es)). exfalso; exact (Hs _ Es).
+        -- exfalso. revert Es. generalize (b :: t). intros sh. generalize (Some y). intros next.
+           revert next. induction sh as [|c rest IHs]; intros next; cbn [short_args]; [discriminate|].
+           destruct (find_short defs c) as [d|]; [|discriminate].
+           assert (Hs : forall v used, match set_flag d v with ASets l0 _ => ASets l0 used | r => r end <> ADashDash).
+           { intros v used. unfold set_flag. destruct (parse_value (f_kind d) v); discriminate. }
+           assert (Hg : match f_kind d with
+                        | KBool => match set_flag d k_true with
+                                   | ASets l0 _ => match short_args defs rest next with ASets l' u0 => ASets (l0 ++ l') u0 | r => r end
+                                   | r => r end
+                        | _ => match rest with
+                               | _ :: _ => match set_flag d rest with ASets l0 _ => ASets l0 false | r => r end
+                               | [] => match next with
+                                       | Some v => match set_flag d v with ASets l0 _ => ASets l0 true | r => r end
+                                       | None => AErr (PNeedsArg [c]) end end
+                        end <> ADashDash).
+           { destruct (f_kind d); try (destruct rest; [destruct next; [apply Hs|discriminate]|apply Hs]).
+             unfold set_flag. destruct (parse_value (f_kind d) k_true); try discriminate.
+             pose proof (IHs next) as N. destruct (short_args defs rest next); try discriminate. congruence. }
+           destruct rest as [|r0 [|r1 rt]]; try exact Hg.
+           destruct (r0 =? 61); [apply Hs|exact Hg].
+Qed.
+
+(* a value its flag rejects, anywhere: after any accepted arguments (no "--" among them), and whatever
+   follows, the command line is rejected with that flag's error *)
+Theorem rejected_value_anywhere defs pre d v e rest s p :
+  parse_args defs pre = PArgs s p -> ~ In dashdash pre ->
+  find_long defs (f_name d) = Some d -> f_kind d <> KBool -> ~ In 61 (f_name d) ->
+  match f_name d with [] => False | c :: _ => c <> 45 /\ c <> 61 end ->
+  parse_value (f_kind d) v = VErr e ->
+  parse_args defs (pre ++ (45 :: 45 :: f_name d) :: v :: rest) = PErr (PInvalid (f_name d) e).
+Proof.
+  intros Hp Hdd Hf Hk Heq Hc Hv.
+  rewrite (parse_args_prefix defs _ (length pre) pre (le_n _) s p Hp Hdd).
+  rewrite (rejected_long_value defs d v e rest Hf Hk Heq Hc Hv). reflexivity.
+Qed.
+
+(* ... and so is the command: knut ends with the usage error before its Run function *)
+Corollary rejected_value_ends_command c today pre d v e rest s p fs :
+  parse_args (cmd_flags c) pre = PArgs s p -> ~ In dashdash pre ->
+  find_long (cmd_flags c) (f_name d) = Some d -> f_kind d <> KBool -> ~ In 61 (f_name d) ->
+  match f_name d with [] => False | x :: _ => x <> 45 /\ x <> 61 end ->
+  parse_value (f_kind d) v = VErr e ->
+  run_argv c today (pre ++ (45 :: 45 :: f_name d) :: v :: rest) fs = ORejected (PInvalid (f_name d) e).
+Proof.
+  intros Hp Hdd Hf Hk Heq Hc Hv. apply flag_error_is_clean. unfold parse_cmdline.
+  rewrite (rejected_value_anywhere _ pre d v e rest s p Hp Hdd Hf Hk Heq Hc Hv). reflexivity.
+Qed.
